@@ -163,7 +163,7 @@ _CFG_KEYS = [f"cfg_{p}_e{e}p{q}s{s}" for p in ("get", "put") for e in (0, 1) for
 class Prop(PropBase):
     ID = "C30"
     tiers = {
-        "quick": {"runs": 1000, "selftest_runs": 4},
+        "quick": {"runs": 2400, "selftest_runs": 4},
         "thorough": {"runs": 40000, "selftest_runs": 32},
     }
     rule = ("one run = one component (InputSampler / OutputBuffer) x (edge, polarity, synchronize) x layout, driven "
